@@ -116,6 +116,8 @@ func (g *gen) genFunc(typs []types.Type) error {
 }
 
 func (g *gen) genStatement(o string, typ types.Type) error {
+	// an alias is only another name for its type
+	typ = types.Unalias(typ)
 	p := g.printer
 	switch ttyp := typ.Underlying().(type) {
 	case *types.Basic:
@@ -315,6 +317,7 @@ func hasHashMethod(typ *types.Named) bool {
 }
 
 func (g *gen) field(fieldName string, fieldType types.Type) (string, error) {
+	fieldType = types.Unalias(fieldType)
 	switch typ := fieldType.Underlying().(type) {
 	case *types.Basic:
 		switch typ.Kind() {
